@@ -1046,10 +1046,17 @@ impl Planner {
                     _ => return None,
                 };
 
-                // Check zone map for node properties
-                let might_match =
-                    self.store
-                        .node_property_might_match(&property.into(), compare_op, &value);
+                // The variable may be bound to a node or to an edge: the scan can only be
+                // skipped if neither the node column nor (when there is one) the edge
+                // column of that name can match.
+                let key = property.into();
+                let might_match = self
+                    .store
+                    .node_property_might_match(&key, compare_op, &value)
+                    || (self.store.edge_property_zone_map(&key).is_some()
+                        && self
+                            .store
+                            .edge_property_might_match(&key, compare_op, &value));
 
                 Some(might_match)
             }
